@@ -79,6 +79,8 @@ func main() {
 		run(ingest(msg(1, pb.TransportType_Min, "93.184.216.35:443")))
 		run(ingest(msg(2, pb.TransportType_Prefix, "93.184.216.34:443")))
 		run(ingest(msg(3, pb.TransportType_Min, "10.1.1.1:443")))
+		// same secret, other transport: a second registration on the phantom the connection handlers look up
+		run(ingest(msg(1, pb.TransportType_Prefix, "93.184.216.34:443")))
 		// sweeper
 		run(func() {
 			for i := 0; i < 3; i++ {
